@@ -16,7 +16,10 @@ use zipora::algorithms::suffix_array::{
 };
 use zipora::algorithms::Algorithm;
 use zipora::compression::dict_zip::{DfaCacheConfig, SuffixArrayDictionary, SuffixArrayDictionaryConfig};
-use zipora::compression::suffix_array::{SuffixArrayCompressor, SuffixArrayConfig as CompConfig};
+use zipora::compression::suffix_array::{EnhancedSuffixArray as CompEsa, SuffixArrayCompressor, SuffixArrayConfig as CompConfig};
+
+#[path = "c12_wide.rs"]
+mod wide;
 
 const HEADER: &str = r#"From ZV.Common Require Import Base Run.
 From ZV.C12 Require Import Spec Model ModelDict ModelEsa ModelSais ModelCases.
@@ -100,6 +103,12 @@ fn config_for(alg: Alg, variant: u64, n: usize) -> SuffixArrayConfig {
         2 => { c.adaptive_threshold = 0; c.use_parallel = false; }
         3 => { c.adaptive_threshold = n; c.optimize_small_alphabet = false; }
         4 => { c.adaptive_threshold = n + 1; c.parallel_threshold = n; }
+        // breadth: the parallel switch exactly at / just above the text length, the unused compute_lcp flag,
+        // use_parallel off with a zero threshold, adaptive_threshold at the extremes
+        5 => { c.use_parallel = true; c.parallel_threshold = n; }
+        6 => { c.parallel_threshold = n + 1; c.compute_lcp = true; }
+        7 => { c.use_parallel = false; c.parallel_threshold = 0; c.adaptive_threshold = usize::MAX; }
+        8 => { c.parallel_threshold = 0; c.optimize_small_alphabet = false; c.adaptive_threshold = 1; c.compute_lcp = true; }
         _ => {}
     }
     c
@@ -169,11 +178,16 @@ fn check_search(occ: &[usize], sa: &[usize], p: &[u8], range: (usize, usize), sr
 }
 
 fn core_case(cx: &mut Ctx, alg_i: usize, variant: u64, t: &[u8], pats: &[Vec<u8>], force_coq: bool) {
+    let cj = json!({"cell": "core", "alg": ALGS[alg_i].1, "variant": variant, "text": t, "patterns": pats});
+    core_case_cj(cx, alg_i, variant, t, pats, force_coq, cj);
+}
+
+/// `cj` is the replayable description of the case (big texts are described, not spelled out).
+fn core_case_cj(cx: &mut Ctx, alg_i: usize, variant: u64, t: &[u8], pats: &[Vec<u8>], force_coq: bool, cj: Value) {
     let (alg, aname) = ALGS[alg_i];
     let n = t.len();
     let cell = format!("build/{}", aname);
     cx.sum.eval(&cell, &format!("{} v{} {:?}", aname, variant, t), n >= 2);
-    let cj = json!({"cell": "core", "alg": aname, "variant": variant, "text": t, "patterns": pats});
     let cfg = config_for(alg, variant, n);
     let resolved = match guarded(|| SuffixArrayBuilder::new(cfg.clone()).select_algorithm(t)) {
         Ok(a) => a,
@@ -187,6 +201,9 @@ fn core_case(cx: &mut Ctx, alg_i: usize, variant: u64, t: &[u8], pats: &[Vec<u8>
         (0, Alg::Adaptive) => SuffixArray::new(t),
         (0, Alg::DivSufSort) | (1, Alg::SAIS) => { let b = SuffixArrayBuilder::new(cfg.clone()); b.execute(&cfg, t.to_vec()) }
         (0, Alg::LarssonSadakane) | (1, Alg::DC3) => SuffixArrayBuilder::new(cfg.clone()).build(t),
+        (v, _) if v >= 5 && (v as usize + alg_i) % 3 == 1 => SuffixArrayBuilder::new(cfg.clone()).build(t),
+        // the trait entry point builds with the configuration it is handed, not with the builder's own
+        (v, _) if v >= 5 && (v as usize + alg_i) % 3 == 2 => SuffixArrayBuilder::new(SuffixArrayConfig::default()).execute(&cfg, t.to_vec()),
         _ => SuffixArray::with_config(t, &cfg),
     });
     #[cfg(zipora_verif)]
@@ -261,12 +278,18 @@ fn core_case(cx: &mut Ctx, alg_i: usize, variant: u64, t: &[u8], pats: &[Vec<u8>
 }
 
 fn enhanced_case(cx: &mut Ctx, t: &[u8], force_coq: bool) {
+    enhanced_case_cj(cx, t, force_coq, json!({"cell": "enhanced", "text": t}));
+}
+
+fn enhanced_case_cj(cx: &mut Ctx, t: &[u8], force_coq: bool, cj: Value) {
     let cell = "EnhancedSuffixArray";
     let n = t.len();
     cx.sum.eval(cell, &format!("{:?}", t), n >= 2);
-    let cj = json!({"cell": "enhanced", "text": t});
     let thr = SuffixArrayConfig::default().adaptive_threshold;
-    let resolved = SuffixArrayBuilder::new(SuffixArrayConfig::default()).select_algorithm(t);
+    let resolved = match guarded(|| SuffixArrayBuilder::new(SuffixArrayConfig::default()).select_algorithm(t)) {
+        Ok(a) => a,
+        Err(m) => { cx.sum.fail(cell, None, cj, &format!("select_algorithm panicked: {}", m)); return; }
+    };
     let class = sais_class(resolved);
     let mut esa_sa: [Option<Vec<usize>>; 2] = [None, None];
     let mut esa_probes: Option<Vec<Option<usize>>> = None;
@@ -325,19 +348,35 @@ fn enhanced_case(cx: &mut Ctx, t: &[u8], force_coq: bool) {
 }
 
 fn compress_case(cx: &mut Ctx, preset: usize, t: &[u8], pats: &[Vec<u8>], force_coq: bool) {
+    let cj = json!({"cell": "compress", "preset": preset, "text": t, "patterns": pats});
+    compress_case_cj(cx, preset, 0, t, pats, force_coq, cj);
+}
+
+/// entry 0: `build_suffix_array`; 1: the `Algorithm::execute` trait entry point (it ignores the configuration it is handed).
+fn compress_build(cx: &Ctx, preset: usize, entry: u64, t: &[u8]) -> Result<zipora::error::Result<CompEsa>, String> {
+    let comp = &cx.comps[preset].0;
+    guarded(|| if entry == 1 { comp.execute(&CompConfig::for_realtime(), t.to_vec()) } else { comp.build_suffix_array(t) })
+}
+
+fn compress_case_cj(cx: &mut Ctx, preset: usize, entry: u64, t: &[u8], pats: &[Vec<u8>], force_coq: bool, cj: Value) {
+    let r = compress_build(cx, preset, entry, t);
+    compress_check(cx, preset, r, t, pats, force_coq, cj);
+}
+
+fn compress_check(cx: &mut Ctx, preset: usize, r: Result<zipora::error::Result<CompEsa>, String>, t: &[u8], pats: &[Vec<u8>], force_coq: bool, cj: Value) {
     let n = t.len();
     let pname = cx.comps[preset].1;
     let with_lcp = cx.comps[preset].2;
     let cell = format!("SuffixArrayCompressor/{}", pname);
     cx.sum.eval(&cell, &format!("{} {:?}", pname, t), n >= 2);
-    let cj = json!({"cell": "compress", "preset": preset, "text": t, "patterns": pats});
     let class: Option<&str> = None;
-    let r = { let comp = &cx.comps[preset].0; guarded(|| comp.build_suffix_array(t)) };
     let e = match r {
         Err(m) => { cx.sum.fail(&cell, if n >= 2 { class } else { None }, cj, &format!("build_suffix_array panicked: {}", m)); return; }
         Ok(Err(e)) => { cx.sum.fail(&cell, if n >= 2 { class } else { None }, cj, &format!("build_suffix_array refused: {:?}", e)); return; }
         Ok(Ok(e)) => e,
     };
+    // statistics accessors in the middle of the queries (never judged; they must not disturb what follows)
+    let _ = guarded(|| (e.stats().lookup_count, e.memory_usage(), e.compression_ratio(), format!("{:?}", e).len()));
     // IntVec's delta layout makes lcp_at(k) cost O(k): on big arrays probe the ends and a stride
     let elen = e.len();
     let probes: Vec<usize> = if elen <= 5000 { (0..elen).collect() } else {
@@ -397,6 +436,29 @@ fn compress_case(cx: &mut Ctx, preset: usize, t: &[u8], pats: &[Vec<u8>], force_
     push_coq(cx, 5, 10_000, 0, t, &obs, &cj, force_coq);
 }
 
+/// Dictionary configurations.  0-3: the original four; 4-11 (breadth): the untouched default (memory pool on), every
+/// construction algorithm, external mode, pattern-length windows, BFS depth 0 / deep, sampling ratio (no effect up to
+/// 10 000 bytes), the small-dictionary preset for a dictionary size of 0.
+fn dict_cfg(variant: u64, n: usize) -> SuffixArrayDictionaryConfig {
+    let mut cfg = SuffixArrayDictionaryConfig { use_memory_pool: false, ..SuffixArrayDictionaryConfig::default() };
+    match variant {
+        1 => { cfg.min_frequency = 1; cfg.max_bfs_depth = 2; }
+        2 => { cfg.suffix_array_config.algorithm = Alg::SAIS; cfg.min_frequency = 2; }
+        3 => { cfg.dfa_cache_config = DfaCacheConfig::small_dictionary(n); cfg.min_frequency = 1; } // double-array trie
+        4 => { cfg = SuffixArrayDictionaryConfig::default(); }
+        5 => { cfg.suffix_array_config.algorithm = Alg::DivSufSort; cfg.external_mode = true; cfg.min_pattern_length = 1; cfg.max_pattern_length = 3; }
+        6 => { cfg.suffix_array_config.algorithm = Alg::LarssonSadakane; cfg.suffix_array_config.optimize_small_alphabet = false; cfg.max_bfs_depth = 0; cfg.min_pattern_length = 0; }
+        7 => { cfg.suffix_array_config.algorithm = Alg::DC3; cfg.min_frequency = 1; cfg.max_bfs_depth = 9; cfg.dfa_cache_config = DfaCacheConfig::small_dictionary(n); cfg.min_pattern_length = 2; cfg.max_pattern_length = 2; }
+        8 => { cfg.suffix_array_config.adaptive_threshold = 0; cfg.suffix_array_config.parallel_threshold = 1; cfg.sample_ratio = 0.5; cfg.enable_simd = !cfg.enable_simd; }
+        9 => { cfg.suffix_array_config.algorithm = Alg::SAIS; cfg.suffix_array_config.optimize_small_alphabet = false; cfg.min_frequency = 0; cfg.max_cache_states = 1; cfg.max_dict_size = 1; cfg.min_pattern_length = 3; cfg.max_pattern_length = 300; }
+        10 => { cfg.dfa_cache_config = DfaCacheConfig::small_dictionary(0); cfg.min_frequency = 3; cfg.max_bfs_depth = 1; cfg.sample_ratio = 0.0; }
+        11 => { cfg.use_memory_pool = true; cfg.dfa_cache_config.use_memory_pool = false; cfg.dfa_cache_config.initial_capacity = 1; cfg.dfa_cache_config.min_node_frequency = 0; cfg.min_frequency = 1; cfg.max_bfs_depth = 3; cfg.sample_ratio = 2.0; }
+        _ => {}
+    }
+    cfg
+}
+pub const DICT_VARIANTS: u64 = 12;
+
 /// The PA-Zip dictionary's matcher: the rank range it reports for the longest prefix of `q` that
 /// occurs in the dictionary text must be the range of the suffix array of that text; and every
 /// refinement step `sa_equal_range(lo, hi, depth, c)` on a range whose suffixes share their first
@@ -405,10 +467,7 @@ fn compress_case(cx: &mut Ctx, preset: usize, t: &[u8], pats: &[Vec<u8>], force_
 fn dict_case(cx: &mut Ctx, variant: u64, t: &[u8], queries: &[Vec<u8>], to_coq: bool) {
     let n = t.len();
     let cj = json!({"cell": "dict", "variant": variant, "text": t, "patterns": queries});
-    let mut cfg = SuffixArrayDictionaryConfig { use_memory_pool: false, ..SuffixArrayDictionaryConfig::default() };
-    if variant == 1 { cfg.min_frequency = 1; cfg.max_bfs_depth = 2; }
-    if variant == 2 { cfg.suffix_array_config.algorithm = Alg::SAIS; cfg.min_frequency = 2; }
-    if variant == 3 { cfg.dfa_cache_config = DfaCacheConfig::small_dictionary(n); cfg.min_frequency = 1; } // double-array trie
+    let cfg = dict_cfg(variant, n);
     let cells = ["SuffixArrayDictionary/sa_match_continuation", "SuffixArrayDictionary/da_match_max_length"];
     let rcell = "SuffixArrayDictionary/sa_equal_range";
     let d = match guarded(|| SuffixArrayDictionary::new(t, cfg.clone())) {
@@ -440,7 +499,8 @@ fn dict_case(cx: &mut Ctx, variant: u64, t: &[u8], queries: &[Vec<u8>], to_coq: 
                     if ms.depth != depth { why = format!("depth {} but the longest prefix of the query that occurs has length {}", ms.depth, depth); }
                     else if depth == 0 { /* nothing matched: the range is not constrained */ }
                     else if ms.lo > ms.hi || ms.hi > n { why = format!("range ({}, {}) is not a rank range", ms.lo, ms.hi); }
-                    else { let mut got = sa[ms.lo..ms.hi].to_vec(); got.sort(); if got != occ { why = format!("ranks [{}, {}) list {:?}, the matched prefix occurs at {:?}", ms.lo, ms.hi, &got[..got.len().min(10)], &occ[..occ.len().min(10)]); } }
+                    else { let mut got = sa[ms.lo..ms.hi].to_vec(); got.sort(); if got != occ { why = format!("ranks [{}, {}) list {:?}, the matched prefix occurs at {:?}", ms.lo, ms.hi, &got[..got.len().min(10)], &occ[..occ.len().min(10)]); }
+                        else if ms.match_count() != occ.len() || ms.is_empty() { why = format!("match_count {} / is_empty {} for {} occurrences", ms.match_count(), ms.is_empty(), occ.len()); } }
                     if !why.is_empty() { cx.sum.fail(cell, None, cj.clone(), &format!("query {:?}: {}", &q[..q.len().min(16)], why)); }
                     if ci == 0 { conts.push(format!("([0; {}; 0; {}; {}; {}]%N, {})", n, ms.lo, ms.hi, ms.depth, coq_bytes(q))); }
                     else { das.push(format!("([{}; {}; {}]%N, {})", ms.lo, ms.hi, ms.depth, coq_bytes(q))); }
@@ -580,16 +640,19 @@ fn u8s(v: &Value) -> Vec<u8> { v.as_array().map(|a| a.iter().map(|x| x.as_u64().
 fn pats_of(v: &Value) -> Vec<Vec<u8>> { v.as_array().map(|a| a.iter().map(u8s).collect()).unwrap_or_default() }
 
 fn run_one(cx: &mut Ctx, c: &Value) {
-    let t = u8s(&c["text"]);
-    let pats = pats_of(&c["patterns"]);
+    // big texts are described by {"big": {"kind", "n", "seed"}}, patterns may be {"sub": [start, len], "push": byte}
+    let t = wide::text_of(c);
+    let pats = wide::pats_from(&c["patterns"], &t);
+    let alg_of = |c: &Value| ALGS.iter().position(|(_, n)| Some(*n) == c["alg"].as_str()).unwrap_or(0);
+    let preset = (c["preset"].as_u64().unwrap_or(0) as usize).min(cx.comps.len() - 1);
     match c["cell"].as_str() {
-        Some("core") => {
-            let a = ALGS.iter().position(|(_, n)| Some(*n) == c["alg"].as_str()).unwrap_or(0);
-            core_case(cx, a, c["variant"].as_u64().unwrap_or(0), &t, &pats, true);
-        }
-        Some("enhanced") => enhanced_case(cx, &t, true),
-        Some("compress") => compress_case(cx, c["preset"].as_u64().unwrap_or(0) as usize, &t, &pats, true),
+        Some("core") => core_case_cj(cx, alg_of(c), c["variant"].as_u64().unwrap_or(0), &t, &pats, true, c.clone()),
+        Some("enhanced") => enhanced_case_cj(cx, &t, true, c.clone()),
+        Some("compress") => compress_case_cj(cx, preset, c["entry"].as_u64().unwrap_or(0), &t, &pats, true, c.clone()),
         Some("dict") => dict_case(cx, c["variant"].as_u64().unwrap_or(0), &t, &pats, true),
+        Some("compress_pair") => wide::compress_pair_case(cx, preset, c["entry"].as_u64().unwrap_or(0), &t, &u8s(&c["text2"]), &pats, c.clone()),
+        Some("reuse") => wide::reuse_case(cx, alg_of(c), c["variant"].as_u64().unwrap_or(0), &t, &u8s(&c["text2"]), &pats, c.clone()),
+        Some("dict_hist") => wide::dict_hist_case(cx, c),
         _ => {}
     }
 }
@@ -600,7 +663,16 @@ pub fn run(args: &Args) {
         (SuffixArrayCompressor::new(CompConfig::for_dictionary_compression()).expect("compressor"), "dictionary", true),
         (SuffixArrayCompressor::new(CompConfig { use_secure_pool: false, ..CompConfig::for_large_text() }).expect("compressor"), "large_text", false),
         (SuffixArrayCompressor::new(CompConfig { compute_lcp: true, ..CompConfig::for_realtime() }).expect("compressor"), "realtime+lcp", true),
+        // breadth: the Default impl, the presets exactly as shipped, and a configuration with every field off its default
+        (SuffixArrayCompressor::default(), "Default::default", false),
+        (SuffixArrayCompressor::new(CompConfig::for_large_text()).expect("compressor"), "for_large_text", false),
+        (SuffixArrayCompressor::new(CompConfig::for_realtime()).expect("compressor"), "for_realtime", false),
+        (SuffixArrayCompressor::new(CompConfig { use_compressed_storage: false, use_simd: !CompConfig::default().use_simd, use_secure_pool: true, secure_pool_threshold: 0,
+            use_parallel: true, parallel_threshold: 1, compute_lcp: true, optimize_for_dictionary: true, bucket_cache_size: 0, enable_streaming: true, memory_budget: 0 }).expect("compressor"), "all_fields_off_default", true),
     ];
+    for (c, _, _) in &comps { // accessors of the compressor itself (never judged)
+        let _ = guarded(|| (c.memory_pool().is_some(), c.estimate_memory(1000), c.supports_parallel(), c.supports_simd(), Algorithm::stats(c).used_parallel, c.config().compute_lcp));
+    }
     let mut cx = Ctx {
         sum: Summary::new("C12", "enumerated: every string of length <= 9 over 2 letters, <= 7 over 3, <= 5 over 4 (<= 12/8/6 thorough) x the five algorithms x every pattern of length <= 3 over the alphabet plus one absent letter; generated: single symbol, long runs, periodic (periods 1-7, optional defect), Fibonacci / Thue-Morse words, random over alphabets of size 1..256, monotone ramps, byte extremes 0/255, squares, lengths 0-3 and up to 2000 (> 256 LMS suffixes), x algorithms x configuration variants (parallel path, optimize_small_alphabet off, adaptive_threshold 0 / n / n+1) x patterns (present substrings, mutated, extended, whole text, longer than text, empty, full suffix); each array is checked to be a permutation in strictly increasing suffix order, LCP/BWT/search against naive recomputation; non-trivial = text of >= 2 bytes / non-empty pattern"),
         shards: CoqShards::new(HEADER, 250),
@@ -652,6 +724,8 @@ pub fn run(args: &Args) {
     cx.sais_stride = (universe.len() / (cx.sais_coq_budget / 2)).max(1);
     let stride = (universe.len() * 5 / (cx.coq_budget * 2 / 3)).max(1);
     let mut k = 0usize;
+    let only_wide = std::env::var("ZV_C12_ONLY_WIDE").is_ok(); // development switch: run the breadth families only
+    if only_wide { wide::families(&mut cx, &mut rng, &universe, args.thorough); let sh = cx.shards.write(&args.out); cx.sum.write(&args.out, sh); return; }
     for (t, pats) in &universe {
         for a in 0..5 {
             k += 1;
@@ -671,7 +745,7 @@ pub fn run(args: &Args) {
         for (ui, (t, pats)) in universe.iter().enumerate() {
             if t.is_empty() { continue; }
             let qs: Vec<Vec<u8>> = pats.iter().filter(|p| p.len() == 3 || (ui % 7 == 0 && !p.is_empty())).cloned().collect();
-            dict_case(&mut cx, (ui % 4) as u64, t, &qs, ui % dstride == 0);
+            dict_case(&mut cx, (ui as u64) % DICT_VARIANTS, t, &qs, ui % dstride == 0);
         }
     }
     // ---- generated ----
@@ -684,13 +758,19 @@ pub fn run(args: &Args) {
         let pats = gen_patterns(&mut rng, &t, 6);
         if i < 3 { cx.sum.sample(json!({"text": &t[..t.len().min(24)], "kind": kind, "patterns": pats.iter().take(3).collect::<Vec<_>>()})); }
         let a = (i % 5) as usize;
-        let variant = if a == 4 { rng.below(5) } else { rng.below(2) };
+        let variant = if a == 4 { rng.below(9) } else { *rng.pick(&[0u64, 1, 0, 1, 5, 6, 7, 8]) };
         core_case(&mut cx, a, variant, &t, &pats, false);
         if i % 3 == 0 { core_case(&mut cx, 0, rng.below(2) * 3, &t, &pats[..pats.len().min(4)], false); }
         if i % 4 == 0 { enhanced_case(&mut cx, &t, false); }
-        if i % 4 == 1 { compress_case(&mut cx, (i / 4 % 4) as usize, &t, &pats, false); }
-        if i % 4 == 2 && !t.is_empty() && t.len() <= 400 { dict_case(&mut cx, (i / 4 % 4) as u64, &t, &pats, i % 8 == 2); }
+        if i % 4 == 1 {
+            let (preset, entry) = ((i / 4 % 8) as usize, (i / 32 % 2) as u64);
+            let cj = json!({"cell": "compress", "preset": preset, "entry": entry, "text": t, "patterns": pats});
+            compress_case_cj(&mut cx, preset, entry, &t, &pats, false, cj);
+        }
+        if i % 4 == 2 && !t.is_empty() && t.len() <= 400 { dict_case(&mut cx, (i / 4) as u64 % DICT_VARIANTS, &t, &pats, i % 8 == 2); }
     }
+    // ---- breadth: secondary entry points, presets, thresholds, object reuse, dictionary histories ----
+    wide::families(&mut cx, &mut rng, &universe, args.thorough);
     // ---- a few texts at and above the default adaptive threshold (10 000) ----
     let nbig = if args.thorough { 12 } else { 3 };
     for i in 0..nbig {
